@@ -25,8 +25,7 @@ for root, _d, files in os.walk(os.path.join(REPO, "optuna")):
                 continue
             t = alpha.table_for(tree)
             pf = alpha.private_function_table(tree)
-            if pf:
-                t["__funcs__"] = pf
+            t["__funcs__"] = pf  # also when empty: "this module has no private function" is a fact the un-move passes need
             if t:
                 # a module whose source is byte-identical to the reference needs no renaming at all
                 t["__digest__"] = hashlib.sha256(src.encode()).hexdigest()[:16]
